@@ -71,6 +71,8 @@ func (r *Run) EffectTable(keep func(tableRow) bool, why string) int {
 		file, line := r.P.FnPos(fn)
 		if set[row.C] {
 			r.pass("K4-effect", row.F, row.C, "", why, file, line)
+		} else if implicitZeroStore(set, row.C) {
+			r.pass("K4-effect", row.F, row.C, "implicit: the field of the fresh allocation is never written, so it keeps its zero value", why, file, line)
 		} else {
 			head := row.C
 			if i := strings.Index(head, " = "); i > 0 && strings.HasPrefix(head, "store ") {
@@ -103,4 +105,41 @@ func fileIn(files ...string) func(tableRow) bool {
 		set[f] = true
 	}
 	return func(t tableRow) bool { return set[t.File] }
+}
+
+// implicitZeroStore: an expected `store new(T).F = <zero>` into a fresh allocation is also satisfied
+// when the function never writes that field at all (a composite literal that omits a zero field).
+func implicitZeroStore(effects map[string]bool, canon string) bool {
+	if !strings.HasPrefix(canon, "store new(") {
+		return false
+	}
+	i := strings.LastIndex(canon, " = ")
+	if i < 0 {
+		return false
+	}
+	lhs, rhs := canon[:i], canon[i+3:]
+	switch {
+	case rhs == "0", rhs == "nil", rhs == "false", rhs == `""`, strings.HasPrefix(rhs, "zero("):
+	default:
+		return false
+	}
+	// only direct fields of the allocation: new(T).F (no index, no nested call)
+	rest := lhs[len("store new("):]
+	j := strings.Index(rest, ").")
+	if j < 0 || strings.ContainsAny(rest[j+2:], "[(") {
+		return false
+	}
+	for c := range effects {
+		if strings.HasPrefix(c, lhs+" = ") || strings.HasPrefix(c, lhs+".") || strings.HasPrefix(c, lhs+"[") {
+			return false
+		}
+	}
+	// the allocation itself must still exist in the function
+	alloc := lhs[len("store "):strings.Index(lhs, ").")+1]
+	for c := range effects {
+		if strings.Contains(c, alloc) {
+			return true
+		}
+	}
+	return false
 }
